@@ -129,11 +129,22 @@ def make_cases(pid, tier, seed):
         # functions with a parameter and a declared local whose values are observed at the end
         ends_open = [b for b in bodies if len(b) >= 2 and b[-2][0] not in ("br", "return", "unreachable", "br_table")]
         pbodies = [F.with_param_obs(b) for b in ends_open[: (40 if tier == "quick" else 200)]]
-    for bi, body in enumerate(bodies + pbodies):
-        isp = bi >= len(bodies)
+    rbodies = []
+    if pid in ("C17", "C16"):
+        # functions with one i32 result: the returned value must be unchanged on every way out
+        for b in bodies[: (60 if tier == "quick" else 400)]:
+            rb = F.with_result(b)
+            if rb is not None:
+                rbodies.append(rb)
+    nplain = len(bodies)
+    for bi, body in enumerate(bodies + pbodies + rbodies):
+        isp = nplain <= bi < nplain + len(pbodies)
+        isr = bi >= nplain + len(pbodies)
         plans = F.single_plans(body, modes)
         if isp:
             plans = [pl for pl in plans if pl[0]["mode"] in ("semantic_after", "func_exit", "func_entry", "block_exit")]
+        if isr:
+            plans = [pl for pl in plans if pl[0]["mode"] in ("func_exit", "func_entry")]
         if pid == "C15":
             # multiple injections per site: two probes at the same instruction, different plain modes
             n = len(body)
@@ -193,7 +204,7 @@ def make_cases(pid, tier, seed):
                 paths = ["moditer"]
             for path in paths:
                 cases.append({"id": "%s-b%d-p%d-%s" % (pid, bi, pi, path), "body": body, "plan": plan, "path": path,
-                              "encode_twice": pid == "C05", "results": 0, "params": 1 if isp else 0, "locals": 1 if isp else 0})
+                              "encode_twice": pid == "C05", "results": 1 if isr else 0, "params": 1 if isp else 0, "locals": 1 if isp else 0})
     return cases
 
 
@@ -202,17 +213,18 @@ def obligation(args):
     """worker: one z3 query.  args = (key, impl_ops, types, spec_ops, plan_for_hooks, marker_filter)"""
     key, impl_ops, types, spec_ops, plan, mf = args[:6]
     nparams = args[6] if len(args) > 6 else 0
+    nresults = args[7] if len(args) > 7 else 0
     from tv import machine as M, spec as SP
     t0 = time.time()
     try:
-        impl = M.Prog(impl_ops, types)
-        sp = M.Prog(spec_ops)
+        impl = M.Prog(impl_ops, types, nresults)
+        sp = M.Prog(spec_ops, None, nresults)
         hooks = SP.build_hooks(sp, plan)
         sel = 1
         for o in spec_ops:
             if o[0] == "br_table":
                 sel = max(sel, len(o[1]))
-        r, sched, st = M.equivalent(impl, sp, hooks, mf, sel_range=sel, nparams=nparams)
+        r, sched, st = M.equivalent(impl, sp, hooks, mf, sel_range=sel, nparams=nparams, compare_ret=nresults > 0)
         return key, r, sched, round(time.time() - t0, 2), st
     except M.Unsupported as e:
         return key, "unsupported:" + str(e), None, round(time.time() - t0, 2), {}
@@ -382,9 +394,9 @@ def run_engine_t(pid, tier, seed, out, ev):
             filters = filters[:1]
         for mf in filters:
             key = hashlib.sha1(repr((impl_ops, types, spec_ops, [(p.get("at"), p["mode"], p["marker"]) for p in plan_h], mf)).encode()).hexdigest()
-            key = key + str(c.get("params", 0))
+            key = key + str(c.get("params", 0)) + "r" + str(c.get("results", 0))
             if key not in todo:
-                todo[key] = (key, impl_ops, types, spec_ops, plan_h, mf, c.get("params", 0))
+                todo[key] = (key, impl_ops, types, spec_ops, plan_h, mf, c.get("params", 0), c.get("results", 0))
             users.setdefault(key, []).append(c)
     C.say("[T] %d distinct obligations from %d cases" % (len(todo), tres["programs"]))
     # ---- solve
@@ -414,9 +426,11 @@ def run_engine_t(pid, tier, seed, out, ev):
             pvals = ()
             if isinstance(sched, dict):
                 pvals, sched = tuple(sched["params"]), sched["conds"]
-            ea = I.run(impl_ops, sched, None, types, marker_filter=mf, params=pvals)
-            eb = I.run(spec_ops, sched, plan_h, None, marker_filter=mf, params=pvals)
-            if ea != eb and ea[1] in ("return", "trap") and eb[1] in ("return", "trap"):
+            nres = c.get("results", 0)
+            ea = I.run(impl_ops, sched, None, types, nresults=nres, marker_filter=mf, params=pvals)
+            eb = I.run(spec_ops, sched, plan_h, None, nresults=nres, marker_filter=mf, params=pvals)
+            term = lambda k: k == "trap" or k.startswith("return")
+            if ea != eb and term(ea[1]) and term(eb[1]):
                 violations.append((c, "trace of the instrumented body differs from the prescribed trace on oracle stream %s: got %s, prescribed %s" % (sched, ea, eb),
                                    {"impl": impl_ops, "spec": spec_ops, "plan": plan_h, "schedule": sched, "params": list(pvals), "marker_filter": mf, "impl_trace": ea, "spec_trace": eb, "types": types}))
             else:
@@ -445,7 +459,7 @@ def run_engine_t(pid, tier, seed, out, ev):
     nval = 0
     for key in list(todo)[:6]:
         _, impl_ops, types, spec_ops, plan_h, mf = todo[key][:6]
-        if len(todo[key]) > 6 and todo[key][6]:
+        if len(todo[key]) > 6 and (todo[key][6] or todo[key][7]):
             continue
         try:
             sp = M.Prog(spec_ops)
